@@ -47,6 +47,13 @@ func (r *Registry) Add(soyfile *ast.SoyFileNode) error {
 	for i := 0; i < len(soyfile.Body); i++ {
 		var tn, ok = soyfile.Body[i].(*ast.TemplateNode)
 		if !ok {
+			// outside the templates a file holds its namespace and doc comments:
+			// a command there would never be checked or rendered.
+			switch node := soyfile.Body[i].(type) {
+			case *ast.NamespaceNode, *ast.SoyDocNode, *ast.RawTextNode:
+			default:
+				return fmt.Errorf("command outside of a template: %v", node)
+			}
 			continue
 		}
 
